@@ -49,6 +49,11 @@ fn lsq_exp<'a>(p: &[Var<'a>], d: &[&[f64]]) -> Var<'a> {
 fn lsq_decay<'a>(p: &[Var<'a>], d: &[&[f64]]) -> Var<'a> {
     d[0].iter().zip(d[1]).map(|(&x, &y)| ((p[0] * (-x)).exp() - y).powi(2)).sum()
 }
+/// one parameter so large that a step of Adam cannot move it (6e12 against steps of 1e-4), next to an
+/// ordinary one that keeps moving: "stop early only once the parameters have stopped changing" is about all of them
+fn huge_and_ordinary<'a>(p: &[Var<'a>], _d: &[&[f64]]) -> Var<'a> {
+    (p[1] - 3.0).powi(2) + p[0] * p[0] * 1e-26
+}
 fn lsq_sin<'a>(p: &[Var<'a>], d: &[&[f64]]) -> Var<'a> {
     d[0].iter().zip(d[1]).map(|(&x, &y)| ((p[0] * x + p[1]).sin() - y).powi(2)).sum()
 }
@@ -134,6 +139,7 @@ fn problems() -> Vec<Problem> {
             },
             max_step: 0.25,
         },
+        Problem { name: "huge+ordinary", f: huge_and_ordinary, data: vec![vec![0.0]], starts: vec![vec![6e12, 0.25], vec![-4e13, 5.0]], grad: |p, _| vec![2e-26 * p[0], 2.0 * (p[1] - 3.0)], max_step: 1e-2 },
         Problem {
             name: "lsq-sin",
             f: lsq_sin,
@@ -432,6 +438,21 @@ fn lm_problems() -> Vec<LmProblem> {
     for &n in &[5usize, 12, 40, 200] {
         let xs: Vec<f64> = (0..n).map(|i| i as f64 * 0.5 - 1.0).collect();
         v.push(LmProblem { name: "line", f: lm_line, linear: true, eval: |p, x| p[0] + p[1] * x, jac: |_, x| vec![1.0, x], xs: xs.clone(), ys: xs.iter().enumerate().map(|(i, x)| 2.0 - 3.0 * x + noise(i)).collect(), starts: vec![vec![0.0, 0.0], vec![50.0, -40.0], vec![2.0, -3.0]] });
+        // replicate measurements: every abscissa three times (consecutive equal x with different y)
+        if n <= 40 {
+            let xr: Vec<f64> = (0..n).map(|i| (i / 3) as f64 * 0.5 - 1.0).collect();
+            v.push(LmProblem { name: "line, triplicate abscissae", f: lm_line, linear: true, eval: |p, x| p[0] + p[1] * x, jac: |_, x| vec![1.0, x], xs: xr.clone(), ys: xr.iter().enumerate().map(|(i, x)| 2.0 - 3.0 * x + noise(i)).collect(), starts: vec![vec![0.0, 0.0], vec![2.0, -3.0]] });
+            v.push(LmProblem {
+                name: "exponential, triplicate abscissae",
+                f: lm_exp,
+                linear: false,
+                eval: |p, x| p[0] * (p[1] * x).exp(),
+                jac: |p, x| vec![(p[1] * x).exp(), p[0] * x * (p[1] * x).exp()],
+                xs: xr.iter().map(|x| x / 4.0).collect(),
+                ys: xr.iter().enumerate().map(|(i, x)| 2.0 * (0.8 * x / 4.0).exp() + 0.1 * noise(i)).collect(),
+                starts: vec![vec![1.0, 0.0], vec![2.0, 0.8]],
+            });
+        }
         v.push(LmProblem { name: "quadratic", f: lm_quadr, linear: true, eval: |p, x| p[0] + p[1] * x + p[2] * x * x, jac: |_, x| vec![1.0, x, x * x], xs: xs.clone(), ys: xs.iter().enumerate().map(|(i, x)| 1.0 + 0.5 * x - 0.25 * x * x + noise(i)).collect(), starts: vec![vec![0.0, 0.0, 0.0], vec![-20.0, 10.0, 5.0]] });
         v.push(LmProblem { name: "constant", f: lm_const, linear: true, eval: |p, _| p[0], jac: |_, _| vec![1.0], xs: xs.clone(), ys: xs.iter().enumerate().map(|(i, _)| 4.0 + noise(i)).collect(), starts: vec![vec![0.0], vec![-100.0]] });
         v.push(LmProblem { name: "cubic", f: lm_cubic4, linear: true, eval: |p, x| p[0] + p[1] * x + p[2] * x * x + p[3] * x * x * x, jac: |_, x| vec![1.0, x, x * x, x * x * x], xs: xs.iter().map(|x| x / 4.0).collect(), ys: xs.iter().enumerate().map(|(i, x)| 1.0 - x / 4.0 + noise(i)).collect(), starts: vec![vec![0.0, 0.0, 0.0, 0.0], vec![3.0, -3.0, 3.0, -3.0]] });
@@ -675,7 +696,7 @@ fn dd_solve(a: &[DD], b: &[DD], n: usize) -> Option<Vec<f64>> {
 }
 
 pub fn run(run: &Run) {
-    run.rule("Adam and SGD (plain, momentum, Nesterov): 13 objectives (convex and indefinite quadratics in 1..3 and 8 dimensions, two of them running away under the larger steps so that the objective overflows while the iterates are still finite, Rosenbrock, least-squares losses built from exp, sin, powi and division) × 2 starts × step sizes {1e-4,1e-2,.25,.5} (capped per objective) × β1,β2 in {.5,.9,.999}² (ε = 1e-8, and ε in {1e-4,1e-2,1} at β = (.9,.999)) / momentum {0,.5,.9,.99} × Nesterov on/off × every budget k in 0..=32 and every 8th to 200 (0..=64 and every 8th to 2000 thorough), each compared with the published recurrence stepped by the harness; LM: linear (constant, line, quadratic, cubic), exponential and logistic curve fits with fixed noise patterns, 5/12/40/200 points, good and poor starts, every budget 0..=60 (200) and 200; every (configuration, budget) pair is a distinct non-trivial case");
+    run.rule("Adam and SGD (plain, momentum, Nesterov): 14 objectives (convex and indefinite quadratics in 1..3 and 8 dimensions, two of them running away under the larger steps so that the objective overflows while the iterates are still finite, Rosenbrock, least-squares losses built from exp, sin, powi and division) × 2 starts × step sizes {1e-4,1e-2,.25,.5} (capped per objective) × β1,β2 in {.5,.9,.999}² (ε = 1e-8, and ε in {1e-4,1e-2,1} at β = (.9,.999)) / momentum {0,.5,.9,.99} × Nesterov on/off × every budget k in 0..=32 and every 8th to 200 (0..=64 and every 8th to 2000 thorough), each compared with the published recurrence stepped by the harness; LM: linear (constant, line, quadratic, cubic), exponential and logistic curve fits with fixed noise patterns, 5/12/40/200 points, good and poor starts, every budget 0..=60 (200) and 200; every (configuration, budget) pair is a distinct non-trivial case");
     let _ = Vector::new(vec![0.0]);
     first_order(run);
     lm_suite(run);
